@@ -457,13 +457,21 @@ def dropLastNl (s : Str) : Str := if s.getLast? = some '\n' then s.dropLast else
 def finishMsg (san : Bool) (m : Option Str) : Option Str :=
   m.map (fun s => dropLastNl (if san then sanitize s else s))
 
+/-- the `named_args` vector when `_format_and_split_arguments` throws (fmt rejects a spec/argument combination or
+    an argument is missing): the exception is swallowed, the names are set, the (cleared, resized) values stay empty -/
+def namedPairsThrow (keys : List (Str × Str)) (nargs : Nat) : List (Str × Str) :=
+  let names := populateNames keys nargs
+  names.zip (List.replicate names.length [])
+
 /-- formatting step of the backend for one statement with template `t`; `fv` as in `namedPairs`.
+    `thr` = fmt throws while rendering some argument with the spec it is given (outside the model: an input).
     `msg = none` stands for the "[Could not format log statement…" replacement text. -/
-def backendStep (sep : Str) (san : Bool) (c : Cache) (t : Str) (fv : List Str) : SinkObs × Cache :=
+def backendStep (sep : Str) (san thr : Bool) (c : Cache) (t : Str) (fv : List Str) : SinkObs × Cache :=
   if containsNamedArgs t then
     let r := lookupOrInsert c t
-    ({ msg := finishMsg san (fmtSubst r.1.1 fv), pairs := some (namedPairs sep san r.1.2 fv) }, r.2)
+    ({ msg := if thr then none else finishMsg san (fmtSubst r.1.1 fv),
+       pairs := some (if thr then namedPairsThrow r.1.2 fv.length else namedPairs sep san r.1.2 fv) }, r.2)
   else
-    ({ msg := finishMsg san (fmtSubst t fv), pairs := none }, c)
+    ({ msg := if thr then none else finishMsg san (fmtSubst t fv), pairs := none }, c)
 
 end Named
